@@ -15,7 +15,32 @@ func c16Config(p *spec.Program, sortOn bool) spec.Config {
 	c.Sort = sortOn
 	c.TargetPackageName = "outpkg"
 	c.DefaultPackageName = "example.com/api/types"
+	// keys with lower_snake components and deep paths, in every list option
+	for _, m := range p.Messages {
+		for _, f := range m.Fields {
+			if strings.Contains(f.Name, "_") && !f.Embed && f.Oneof == "" {
+				k := m.Name + "." + f.Name
+				switch len(k) % 3 {
+				case 0:
+					c.ComputedFields = appendUnique(c.ComputedFields, k)
+				case 1:
+					c.RequiredFields = appendUnique(c.RequiredFields, k)
+				default:
+					c.SensitiveFields = appendUnique(c.SensitiveFields, k)
+				}
+			}
+		}
+	}
 	return c
+}
+
+func appendUnique(l []string, k string) []string {
+	for _, x := range l {
+		if x == k {
+			return l
+		}
+	}
+	return append(append([]string{}, l...), k)
 }
 
 // c16ConfigSamePkg: option values that coincide (struct package and target package have the same
